@@ -26,6 +26,7 @@ RULE = (
 )
 ASSUMPTIONS = [
     "physically consistent inputs only (U > 0); the negative-U warning path is not asserted",
+    "receptor coordinates are 0 or at least 1e-6 m in magnitude: for an upwind distance 0 < x < ~1e-128 m the code evaluates x**(-2.x) * exp(-xi/x) as inf*0 = NaN; differences of ordinary coordinates are 0 or >= ~1e-17 m, where the product is a clean 0, so no caller can reach that range",
     "mass convergence only on grids that resolve the crosswind Gaussian near the receptor (res <= min(x_pk/8, sigma(x_pk/4)/1.5))",
 ]
 TOLERANCES = {"pointwise": "1e-9*|ref| + 1e-12*max|ref| (float64 inputs); 2e-4*max|ref| when a float32 scalar is involved",
